@@ -2,6 +2,7 @@ import WellenModel.Proofs.VcdStop
 import WellenModel.Proofs.TimeTable
 import WellenModel.Proofs.Mt
 import WellenModel.Props.C04
+import WellenModel.Proofs.SplitFree
 /-!
 # C03 — multi-threaded VCD loading equals single-threaded loading
 
@@ -17,6 +18,8 @@ trusted) and appended sequentially. What is proved here:
   (`Spec.runSegs`) on the operations each chunk's events denote; with `C04_store_refines_spec_all` the loaded signals are
   therefore exactly what the abstract specification says about `ops(chunk 0) ++ split ++ ops(chunk 1) ++ …`
   (`C03_mt_loaded_signal`).
+* `C03_split_transparent` / `C03_mt_loaded_signal_single`: the `split` marks are transparent for the specification, so the
+  loaded signals are what ONE thread recording the concatenated per-chunk operations would have produced.
 What is NOT proved is the purely lexical last step of `mt = st` for hand-over-safe bodies — that those per-chunk
 operations are the operations of the whole body; it is checked differentially against the Lean model of the chunked
 parser on every boundary alignment (see evidence). For bodies that are not hand-over safe the property is false for
@@ -188,5 +191,39 @@ theorem C03_mt_loaded_signal (c : Codec) (d : Decls) (rm : RealMap) (body : List
   intro hreal tt sigs hspec
   obtain ⟨sigS, chg, h1, h2, _⟩ := C04_store_refines_spec_all c i hbm hbmax d.sigTypes tpe hw hti _ hreal enc hrun tt sigs hspec hsmall
   exact ⟨sigS, chg, h1, h2⟩
+
+/-- **division among parser threads is transparent** (specification level): whatever a history with `split` marks — one
+encoder per chunk, appended — denotes, the same operations recorded by ONE thread (the marks removed) denote as well: the
+same time table and the same change list for every signal -/
+theorem C03_split_transparent (tps : List SigType) (ops : List Spec.Op) (r : List Nat × List (List (Nat × Spec.Value)))
+    (h : Spec.run tps ops = some r) : Spec.run tps (Spec.dropSplits ops) = some r :=
+  Spec.run_dropSplits tps ops r h
+
+/-- … so a multi-threaded load that succeeds yields, for every signal, exactly what the specification denotes for the
+CONCATENATION of the per-chunk operations read as one single-threaded recording (`dropSplits`): the store-level half of
+`mt = st`. What remains differential is only that the per-chunk operations are the operations of the whole body (the
+lexical hand-over, FMT). -/
+theorem C03_mt_loaded_signal_single (c : Codec) (d : Decls) (rm : RealMap) (body : List Nat) (threads minChunk : Nat) (enc : Enc)
+    (h : readValues c d rm body (.multi threads minChunk) = .ok enc)
+    (i : Nat) (hbm : 1 ≤ c.blockMax) (hbmax : c.blockMax ≤ 2 ^ 28) (tpe : SigType) (hw : ∀ b, tpe = .bitvec b → 1 ≤ b)
+    (hti : d.sigTypes[i]? = some tpe)
+    (hsmall : ∀ b ∈ (finish c enc).1.blocks, b.data.length < 2 ^ 36) :
+    ∃ ops, Spec.runSegs c d.sigTypes ops = some enc ∧
+      ((∀ op ∈ ops, ∀ j v r, op = .vcd j v (some r) → r.length = 8) →
+       ∀ tt sigs, Spec.run d.sigTypes ops = some (tt, sigs) →
+        Spec.run d.sigTypes (Spec.dropSplits ops) = some (tt, sigs) ∧
+        ∃ sigS chg, sigs[i]? = some chg ∧
+          loadSignal (finish c enc).1 i tpe =
+            some { maxStates := sigS, times := chg.map (·.1),
+                   entries := chg.map (fun x => (kindFor tpe hw).entry sigS (encVK (kindFor tpe hw) x)) }) := by
+  obtain ⟨ops, h1, h2⟩ := C03_mt_loaded_signal c d rm body threads minChunk enc h i hbm hbmax tpe hw hti hsmall
+  refine ⟨ops, h1, ?_⟩
+  intro hreal tt sigs hspec
+  exact ⟨C03_split_transparent _ _ _ hspec, h2 hreal tt sigs hspec⟩
+
+/-- non-vacuity: two chunks, the second opening a new maximum -/
+example : Spec.run [.bitvec 1] [.time 0, .vcd 0 [49] none, .split, .time 5, .vcd 0 [48] none] =
+    Spec.run [.bitvec 1] (Spec.dropSplits [.time 0, .vcd 0 [49] none, .split, .time 5, .vcd 0 [48] none]) ∧
+    (Spec.run [.bitvec 1] [.time 0, .vcd 0 [49] none, .split, .time 5, .vcd 0 [48] none]).isSome = true := by decide
 
 end Wellen.VcdBody
